@@ -5,6 +5,8 @@ tables regenerated from /repo (`names_ok`, kernel-checked).
 -/
 import Dawgs.Proofs.C07RoundExpr4
 import Dawgs.Proofs.C07Yield2
+import Dawgs.Proofs.C07RoundPat
+import Dawgs.Proofs.C07YieldPat
 import Dawgs.Spec.C07
 namespace Dawgs.C07.Props
 open Dawgs.C07 Dawgs.C07.Inst Dawgs.Grammar Dawgs.C08
@@ -32,6 +34,29 @@ theorem faithful_partial_expr (t : Tree) (f : Nat) (e : Expr) (ht : t = treeOfEx
     bExpr N (2 * size t + 2) t = .ok e ∧ yieldT t = eExpr (size t) e := by
   subst ht
   exact ⟨emit_build_fixed_expr f e hw _ (Nat.le_refl _), (emit_yield_expr f e hw _ (Nat.le_refl _)).symm⟩
+
+/-! ### patterns -/
+
+/-- `emit_build_fixed` on PATTERN PARTS: `p = shortestPath((a:K {k: e})-[r:T1|T2*1..3 {…}]->(b))`, i.e. an optional path variable,
+optional shortestPath/allShortestPaths wrapper, and a chain node (rel node)* where every node has an optional variable, kinds
+and properties (a map literal of well-formed expressions or a parameter) and every relationship has a direction, optional
+variable, duplicate-free kinds, optional range with bounds in [0, 2^63) and optional properties — is rebuilt exactly -/
+theorem emit_build_fixed_pattern (f : Nat) (p : PatternPart) (hw : wPart (wfExpr f) p = true) (g : Nat)
+    (hg : 2 * size (tPart N (treeOfExpr N f) p) + 2 ≤ g) : bPatternPart N g (tPart N (treeOfExpr N f) p) = .ok p :=
+  bPatternPart_tPart names_ok _ _ (treeOfExpr_ok names_ok f) p g hw hg
+
+/-- … and its canonical tree carries exactly the tokens format.go writes for the pattern part, in order -/
+theorem emit_yield_pattern (f : Nat) (p : PatternPart) (hw : wPart (wfExpr f) p = true)
+    (hG : size (tPart N (treeOfExpr N f) p) ≤ bigFuel) : ePatternPart p = yieldT (tPart N (treeOfExpr N f) p) :=
+  yield_tPart _ _ (fun e G hw hG => treeOfExpr_yield N f e G hw hG) p hw hG
+
+/-- non-vacuity: `p = (a:User {name: $n})-[r:MemberOf|AdminTo*1..3]->(g:Group)<-[]-()` -/
+example : wPart (wfExpr 2) { var := some "p", shortest := false, allShortest := false, els := [
+    .node (some "a") ["User"] (some (.map [("name", .param "n")])),
+    .rel (some "r") ["MemberOf", "AdminTo"] 1 (some (some 1, some 3)) none,
+    .node (some "g") ["Group"] none,
+    .rel none [] 0 none none,
+    .node none [] none] } = true := by decide +kernel
 
 /-- non-vacuity: `n.a = 1 AND NOT (m.b IN [1, 2] OR count(*) > 0)` is well-formed at depth 3 -/
 example : wfExpr 3 (.conj [.cmp (.prop (.var "n") "a") [("=", .lit (.int 1))],
